@@ -142,6 +142,24 @@ def oracle(history, steps):
                 fails.append((i, 'expired-blocks-insert', 'insert of _id %r refused at %d although '
                               'no visible document has it (ttl %r, documents %r)'
                               % (st.op[1]['_id'], sh.now, sh.ttl, prev_docs)))
+        # the same inside an insert_many: a duplicate-key failure at position j needs a visible
+        # document, or an earlier, unexpired document of the same batch, with that _id
+        if st.op[0] == 'insert_many' and st.out[0] == 'err' and st.out[1] == 'BulkWriteError' \
+                and certain and not uniq and isinstance(st.op[1], list) and \
+                all(isinstance(d, dict) for d in st.op[1]):
+            batch = [histcheck.canon_value(d, st.oids) for d in st.op[1]]
+            failed = [w.get('index') for w in st.out[2].get('writeErrors', [])
+                      if w.get('code') == 11000]
+            for j in failed:
+                if not isinstance(j, int) or j >= len(batch) or '_id' not in batch[j]:
+                    continue
+                bid = batch[j]['_id']
+                earlier = [d for jj, d in enumerate(batch[:j]) if jj not in failed]
+                if not any(d.get('_id') == bid and not sh.expired(d)
+                           for d in list(prev_docs) + earlier):
+                    fails.append((i, 'expired-blocks-insert', 'insert_many: document %d (_id %r) '
+                                  'refused as duplicate at %d although no visible document has that '
+                                  '_id (ttl %r)' % (j, bid, sh.now, sh.ttl)))
         if st.op[0] == 'create_index' and st.op[2].get('unique'):
             uniq = True
         if st.obs is None:
